@@ -1600,13 +1600,12 @@ chkpnta(void)
 		const uid_t u = snds[i].key;
 
 		if (UNLIKELY(fd < -1)) {
-			/* just do them one by one here
-			 * and keep our fingers crossed that we
-			 * closed enough file descriptors already */
-			for (; i < nsnds; i++) {
-				rc += chkpnt1(u);
-			}
-			break;
+			/* this one's file could not be opened, do it on its
+			 * own and keep our fingers crossed that we closed
+			 * enough file descriptors already, the others'
+			 * files want finishing in any case */
+			rc += chkpnt1(u) < 0 ? -1 : 0;
+			continue;
 		}
 		if (snprintf(fn, sizeof(fn), ".echsq_%u.ics", u) < 0) {
 			/* oh fuck, there's really nothing we can do */
